@@ -14,7 +14,7 @@
  *   footp  ldb_footer_import of [input, zero padded to 40 bytes][table magic]
  *   hand   ldb_handle_import
  *   filt   ldb_filter_init + ldb_filter_matches (built-in bloom policy) at boundary block offsets
- *   snap   snappy_decode_size + malloc(declared size) + snappy_decode, as ldb_read_block does
+ *   snap   snappy_decode_size + malloc(min(declared size, 64*n+64)) + snappy_decode (ldb_read_block's sequence)
  *   edit   ldb_edit_import (+ ldb_edit_export and ldb_edit_debug of what was accepted)
  *   bat    write batch whose rep is the input: ldb_batch_iterate; if >= 12 bytes also
  *          ldb_batch_set_contents + ldb_batch_insert_into(memtable) as log recovery does
@@ -28,9 +28,10 @@
  *   fname  ldb_parse_filename (input NUL-terminated)
  *
  * Domains: D1 all byte strings of length <= 2 (quick) / <= 3 (thorough) per entry point;
- * D2 all strings of length <= 6 over {00,01,07,7F,80,FF}; D3 per seed encoding: every single-offset
- * substitution by {00,01,02,07,08,7F,80,81,FE,FF}, every truncation, (thorough) every double-offset
- * substitution by {00,7F,80,FF}; D4 (thorough) splices prefix(A)+suffix(B) of consecutive seeds.
+ * D1b all strings of length 3 (quick) / 3..4 (thorough) over a 24-value alphabet; D2 all strings of length <= 6 over
+ * {00,01,07,7F,80,FF}; D3 per seed encoding: every single-offset substitution by
+ * {00,01,02,07,08,7F,80,81,FE,FF}, every truncation, double-offset substitution by {00,FF} at
+ * offsets <= 16 apart (quick) / by {00,7F,80,FF} at every offset pair (thorough); D4 (thorough) splices prefix(A)+suffix(B) of consecutive seeds.
  */
 #include <inttypes.h>
 #include <sys/stat.h>
@@ -69,7 +70,7 @@ static const char *EPN[NEP] = {"blk", "blki", "foot", "footp", "hand", "filt", "
                                "log", "lognc", "logp", "pkey", "fname"};
 
 static uint64_t n_cases[NEP], n_accept[NEP], n_items[NEP];
-static uint64_t n_eval, n_d1, n_d2, n_single, n_trunc, n_double, n_splice, n_enomem;
+static uint64_t n_eval, n_d1, n_d1b, n_d2, n_single, n_trunc, n_double, n_splice, n_enomem;
 static int exhaustive = 1;
 static const char *ep_viol; /* set by an entry point: "nonterminating" ... */
 static char ep_viol_detail[200];
@@ -314,17 +315,24 @@ ep_snap(const uint8_t *p, size_t n, uint64_t *items) {
   size_t ulen = 0;
   uint8_t *ubuf;
   int ok;
+  size_t alloc;
   if (!snappy_decode_size(&ulen, p, n))
     return 0;
-  if (ulen > ALLOC_CAP) {
-    n_enomem++;
-    return 4; /* ldb_read_block would return LDB_ENOMEM here */
-  }
-  ubuf = malloc(ulen);
-  if (ubuf == NULL && ulen) {
-    n_enomem++;
-    return 4;
-  }
+  /* ldb_read_block does malloc(ulen) (and returns LDB_ENOMEM when that fails; it never
+   * reaches ldb_malloc).  Allocating the declared size for every input costs ~100 us per
+   * MiB under ASan, so the output block is min(ulen, 64*n+64) bytes instead: an n-byte
+   * stream has at most n/2 elements of at most 64 output bytes each, written
+   * contiguously from the start, so a correct decoder never needs more, and an
+   * incorrect one that writes past min(...) is still caught by the red zone.  Whenever
+   * ulen <= 64*n+64 (every accepted stream) the block has exactly the declared size. */
+  alloc = ulen;
+  if (alloc > 64 * n + 64)
+    alloc = 64 * n + 64;
+  if (ulen > ALLOC_CAP)
+    n_enomem++; /* statistic: ldb_read_block's malloc would be refused by the allocation seam */
+  ubuf = malloc(alloc);
+  if (ubuf == NULL)
+    vh_die("c18: malloc(%zu) failed", alloc);
   ok = snappy_decode(ubuf, p, n);
   if (ok) {
     ldb_slice_t out = ldb_slice(ubuf, ulen);
@@ -1145,6 +1153,33 @@ dom_alphabet(int e) {
   }
 }
 
+/* D1b: all strings of length 3 and 4 over a 24-value alphabet (small counts/tags + boundaries) */
+static const uint8_t AL24[24] = {0x00, 0x01, 0x02, 0x03, 0x04, 0x05, 0x06, 0x07, 0x08, 0x09, 0x0a, 0x0f,
+                                 0x10, 0x3f, 0x40, 0x7e, 0x7f, 0x80, 0x81, 0xbf, 0xc0, 0xfd, 0xfe, 0xff};
+
+static void
+dom_alphabet24(int e) {
+  uint8_t s[4];
+  int len, i;
+  uint32_t x, lim;
+  for (len = 3; len <= (drv.thorough ? 4 : 3); len++) {
+    lim = 1;
+    for (i = 0; i < len; i++)
+      lim *= 24;
+    for (x = 0; x < lim; x++) {
+      uint32_t y = x;
+      for (i = 0; i < len; i++) {
+        s[i] = AL24[y % 24];
+        y /= 24;
+      }
+      if (run_case(e, s, (size_t)len) >= 0)
+        n_d1b++;
+      if ((x & 0x3fff) == 0x3fff && stop_now())
+        return;
+    }
+  }
+}
+
 static void
 dom_seed(const seed_t *sd, int idx) {
   uint8_t *b = malloc(sd->n ? sd->n : 1);
@@ -1175,11 +1210,14 @@ dom_seed(const seed_t *sd, int idx) {
     if (run_case(sd->ep, sd->p, len) >= 0)
       n_trunc++;
   }
-  if (drv.thorough) {
+  {
+    /* thorough: {00,7F,80,FF}^2 at every offset pair; quick: {00,FF}^2 at pairs at most 16 apart */
+    int step = drv.thorough ? 1 : 3;
+    size_t maxdist = drv.thorough ? (size_t)-1 : 16;
     for (o1 = 0; o1 < sd->n; o1++) {
-      for (o2 = o1 + 1; o2 < sd->n; o2++)
-        for (i = 0; i < 4; i++)
-          for (j = 0; j < 4; j++) {
+      for (o2 = o1 + 1; o2 < sd->n && o2 - o1 <= maxdist; o2++)
+        for (i = 0; i < 4; i += step)
+          for (j = 0; j < 4; j += step) {
             memcpy(b, sd->p, sd->n);
             b[o1] = BV4[i];
             b[o2] = BV4[j];
@@ -1251,7 +1289,9 @@ main(int argc, char **argv) {
   vh_buf_t res;
   int e, i, maxlen;
   const char *only;
+  double t0, t1, t2, t3, t4, t_ep[NEP];
   drv_init(argc, argv);
+  memset(t_ep, 0, sizeof(t_ep));
   ldb_ikc_init(&ikc, ldb_bytewise_comparator);
   ldb_crc32c_init();
 
@@ -1267,9 +1307,11 @@ main(int argc, char **argv) {
   build_seeds();
 
   /* D3 first: the seed mutations reach deepest */
+  t0 = drv_elapsed();
   for (i = 0; i < nseeds && !stop_now(); i++)
     if (!only || strcmp(only, EPN[seeds[i].ep]) == 0)
       dom_seed(&seeds[i], i);
+  t1 = drv_elapsed();
   for (e = 0; e < NEP && !stop_now(); e++) {
     if (only && strcmp(only, EPN[e]) != 0)
       continue;
@@ -1278,8 +1320,17 @@ main(int argc, char **argv) {
   for (e = 0; e < NEP && !stop_now(); e++) {
     if (only && strcmp(only, EPN[e]) != 0)
       continue;
-    dom_all_strings(e, maxlen);
+    dom_alphabet24(e);
   }
+  t2 = drv_elapsed();
+  for (e = 0; e < NEP && !stop_now(); e++) {
+    double ta = drv_elapsed();
+    if (only && strcmp(only, EPN[e]) != 0)
+      continue;
+    dom_all_strings(e, maxlen);
+    t_ep[e] = drv_elapsed() - ta;
+  }
+  t3 = drv_elapsed();
   if (drv.thorough) {
     for (i = 0; i < nseeds && !stop_now(); i++) {
       int j = i + 1;
@@ -1294,20 +1345,27 @@ main(int argc, char **argv) {
       dom_splice(&seeds[i], &seeds[j]);
     }
   }
+  t4 = drv_elapsed();
 
-  drv_note("c18_decoders %s: %d entry points; D1 all byte strings of length <= %d per entry point; D2 alphabet "
-           "{00,01,07,7F,80,FF}^<=6; D3 %d seeds (single substitution x 10 values, every truncation%s)%s; allocation "
-           "seam: snappy output above %zu MiB answered as ENOMEM (%" PRIu64 " cases on this shard)",
-           drv.thorough ? "thorough" : "quick", NEP, maxlen, nseeds,
-           drv.thorough ? ", double substitution x {00,7F,80,FF}^2" : "", drv.thorough ? "; D4 splices of consecutive seeds" : "",
-           ALLOC_CAP >> 20, n_enomem);
+  drv_note("c18_decoders %s: %d entry points; D1 all byte strings of length <= %d per entry point; D1b all strings of "
+           "length 3..%d over a 24-value alphabet; D2 {00,01,07,7F,80,FF}^<=6; D3 %d seeds: single substitution x 10 "
+           "values, every truncation, double substitution %s%s; snappy output block = min(declared, 64*n+64) bytes; "
+           "declared size above %zu MiB (ldb_read_block's malloc would be refused -> ENOMEM) in %" PRIu64
+           " cases on this shard",
+           drv.thorough ? "thorough" : "quick", NEP, maxlen, drv.thorough ? 4 : 3, nseeds,
+           drv.thorough ? "{00,7F,80,FF}^2 at every offset pair" : "{00,FF}^2 at offset pairs <= 16 apart",
+           drv.thorough ? "; D4 splices of consecutive seeds" : "", ALLOC_CAP >> 20, n_enomem);
 
   vb_init(&res);
-  vb_printf(&res, "\"evaluations\":%" PRIu64 ",\"exhaustive\":%s,\"d1_all_strings\":%" PRIu64 ",\"d2_alphabet\":%" PRIu64
+  vb_printf(&res, "\"evaluations\":%" PRIu64 ",\"exhaustive\":%s,\"d1_all_strings\":%" PRIu64 ",\"d1b_alphabet24\":%" PRIu64 ",\"d2_alphabet\":%" PRIu64
             ",\"d3_single\":%" PRIu64 ",\"d3_trunc\":%" PRIu64 ",\"d3_double\":%" PRIu64 ",\"d4_splice\":%" PRIu64
             ",\"seeds\":%d,\"enomem_simulated\":%" PRIu64,
-            n_eval, exhaustive ? "true" : "false", n_d1, n_d2, n_single, n_trunc, n_double, n_splice,
+            n_eval, exhaustive ? "true" : "false", n_d1, n_d1b, n_d2, n_single, n_trunc, n_double, n_splice,
             drv.shard == 0 ? nseeds : 0, n_enomem);
+  vb_printf(&res, ",\"max_t_seeds_s\":%.2f,\"max_t_alphabet_s\":%.2f,\"max_t_allstrings_s\":%.2f,\"max_t_splice_s\":%.2f",
+            t1 - t0, t2 - t1, t3 - t2, t4 - t3);
+  for (e = 0; e < NEP; e++)
+    vb_printf(&res, ",\"max_t_d1_%s_s\":%.2f", EPN[e], t_ep[e]);
   for (e = 0; e < NEP; e++)
     vb_printf(&res, ",\"cases_%s\":%" PRIu64 ",\"accepted_%s\":%" PRIu64 ",\"items_%s\":%" PRIu64, EPN[e], n_cases[e],
               EPN[e], n_accept[e], EPN[e], n_items[e]);
